@@ -125,6 +125,7 @@ SLUGS4 = {
 SLUGS5 = {
     "C01_change1": ("killed-lock-release-skipped", "Mutex::raw_unlock_write / RwLock::raw_unlock_{write,read} return at once when the lock has been killed: a holder's release is skipped and threads already parked in that lock wait for ever", "a lock killed (another thread's raw op panics) while it is held and a third thread is blocked on it"),
     "C02_change1": ("poisonable-scoped-read-drops-guard-at-once", "Poisonable::scoped_read binds its releasing read guard to `_`: shared access is given back before the closure runs", "Poisonable over RwLock(s), blocking scoped_read, a writer arriving during the closure"),
+    "C03_change1": ("owned-raw-write-plain-loop", "OwnedLockCollection::raw_write / raw_read are plain loops over get_locks_unsorted without the unwind rollback of ordered_*: a panic while acquiring member k >= 1 leaves members 0..k locked while the key goes back", "owned collection with >= 2 members, blocking call, a killed / panicking member other than the first"),
     "C04_change1": ("slice-get-ptrs-empty-first-element", "[T; N] / Box<[T]> / Vec<T>::get_ptrs share a helper that returns early when the FIRST element lists no locks: [[], [a, b]] lists nothing", "depth-2 nesting of slice-like containers with an empty inner container in position 0"),
     "C05_change1": ("killed-lock-release-skipped-2", "same site as C01-7 (independently seeded): leaf release functions return early once the kill flag is set", "a lock killed by another thread's panicking raw op while a valid hold on it is alive"),
     "C06_change1": ("threadkey-get-refuses-while-panicking", "ThreadKey::get returns None whenever thread::panicking(), even if the thread's key is free", "get() from a destructor during an unwind while no key of the thread is alive"),
@@ -132,6 +133,7 @@ SLUGS5 = {
     "C08_change1": ("ordered-write-backoff-retakes-lower-locks", "ordered_write tries later locks first; on refusal it releases the prefix, blocks on the refused lock, keeps it and re-takes the lower ones with blocking calls", "write mode, >= 2 locks, contention on a lock other than the lowest at the moment the collection reaches it"),
     "C09_change1": ("poisonable-raw-ops-flatten-retrying-child", "Poisonable's RawLock raw_* go through get_locks_unsorted + ordered_* instead of forwarding to the inner lock: a wrapped retrying collection blocks member by member in listing order", "Poisonable<RetryingLockCollection>, blocking scoped call, contention on a non-first member"),
     "C10_change1": ("scoped-try-lock-kills-inner-instead-of-poisoning", "the unwind handler of Poisonable::scoped_try_lock calls self.poison() (RawLock::poison = kill the inner lock) instead of self.poisoned.poison()", "Poisonable scoped_try_lock that succeeds with a panicking closure"),
+    "C11_change1": ("poisonable-scoped-try-raii-sentinel", "Poisonable::scoped_try_lock / scoped_try_read replace handle_unwind by a PoisonRef sentinel that only poisons: a panicking closure leaks the inner lock", "Poisonable used directly, scoped try variant that succeeds, panicking closure"),
     "C12_change1": ("poisonable-scoped-acquires-inside-protected-closure", "Poisonable::scoped_lock / scoped_read acquire inside the handle_unwind closure: a panic during acquisition runs the handler, which poisons and releases the whole wrapped lock / collection (locks never held or already rolled back)", "Poisonable over a collection, blocking scoped call, a raw lock op that panics during acquisition"),
     "C13_change1": ("retry-cached-lock-count-stale-after-extend", "RetryingLockCollection caches its leaf count (OnceLock) and takes the empty-collection early return from it; Extend / AsMut / iter_mut do not reset it", "a retrying collection operated on while empty and then grown with extend(), then any try / lock"),
     "C14_change1": ("mutex-raw-accessor-safe", "Mutex::raw() loses `unsafe`: lock_api::RawMutex::lock is safe, so m.raw().lock() acquires without a key", "calling raw().lock() in safe code, then ThreadKey::get()"),
@@ -140,19 +142,39 @@ SLUGS5 = {
     "C17_change1": ("rwlock-try-read-no-key-then-some", "RwLock::try_read_no_key uses then_some(RwLockReadRef(..)): a refused try builds the guard and drops it, releasing shared access never taken", "formatting an RwLock whose try-read is refused (write-held, or read-held with a writer queued)"),
 }
 
+SLUGS6 = {
+    "C01_change1": ("read-guard-skips-release-when-writer-queued", "RwLockReadRef::drop returns without releasing when raw.is_locked_exclusive() is true - which it already is while a writer is merely queued", "guard-API read hold dropped while a writer is blocked on that lock (writer-preferring lock)"),
+    "C02_change1": ("poisonable-get-ptrs-empty-when-poisoned", "Poisonable::get_ptrs lists its inner locks only when the wrapper is not poisoned: a collection hands out the data of a poisoned member without holding its lock", "a poisoned Poisonable as member of a collection whose lock list is computed after the poisoning"),
+    "C03_change1": ("lockguard-field-order-key-first", "LockGuard declares key before guard: an implicitly dropped collection guard frees the key cell before any member lock is released", "implicit drop of a collection guard with an observer inside the raw unlock"),
+    "C04_change1": ("retry-skip-held-member-by-address", "retrying raw_write/raw_read skip the already-held member by address identity instead of index: a zero-sized owned member at the same address as a sibling makes the scan skip a real lock", "retrying collection over a tuple whose position 0 is a zero-sized owned collection, blocking path, first scan unrefused"),
+    "C05_change1": ("read-guard-ctor-asserts-not-exclusive", "Sharable::read_guard of RwLock asserts !raw.is_locked_exclusive(): a writer queueing between acquisition and guard construction makes read() panic with the shares held and no guard", "collection / Poisonable guard-API read with a writer starting to wait inside the acquire-to-guard window"),
+    "C06_change1": ("rwlock-scoped-write-fast-path-drops-key", "RwLock::scoped_write first calls scoped_try_write(key, ..) and discards Err(key): on a refused first attempt an owned key is dropped before the thread blocks and the closure runs", "RwLock::scoped_write with an owned key on a lock held by another thread at that moment"),
+    "C07_change1": ("retry-dup-check-thread-local-not-cleared", "RetryingLockCollection's contains_duplicates uses a thread_local scratch set that is not cleared on the early return: after a rejected input the next duplicate-free input sharing a lock is rejected too", "a rejected try_new followed, on the same thread, by a duplicate-free try_new over some of the same locks"),
+    "C08_change1": ("sorting-network-for-four-incomplete", "a shared sort_locks helper sorts lists of 4 with a fixed compare-and-swap sequence that lacks its last step: 6 of the 24 listings of 4 locks are stored with the two lowest swapped", "a sorting collection over exactly 4 leaves whose lowest-addressed lock is listed last"),
+    "C09_change1": ("retry-scan-wraps-but-release-does-not", "the retrying scan continues after the blocked-on member and wraps around, Held::release rebuilds the held set without wrapping: members taken after the wrap are left out of the rollback", ">= 3 members, a round refused at index >= 2, then a round where index 0 is taken after the wrap and a member in 1..first refuses"),
+    "C10_change1": ("poisonref-records-panicking-at-creation", "PoisonRef records thread::panicking() at creation and poisons only if it was false then (std's bookkeeping): a hold that begins during an unwind never poisons", "guard-API hold taken in a destructor during an unwind whose section panics (contained)"),
+    "C11_change1": ("rwlock-scoped-unwind-guesses-mode", "the unwind handlers of RwLock::scoped_* release exclusive or shared depending on raw.is_locked_exclusive(), which is already true while a writer is queued", "panic in a bare RwLock's scoped_read closure while a writer is blocked behind it"),
+    "C12_change1": ("killed-assert-only-in-public-leaf-methods", "the 'lock has been killed' assertion moves from RawLock::raw_write/raw_read to the public leaf methods: collections and Poisonable no longer refuse a killed lock on their blocking paths", "a killed lock acquired through a collection or Poisonable (blocking)"),
+    "C13_change1": ("sorted-try-from-top-rollback-from-bottom", "Boxed/Ref try paths probe from the highest address down but roll back locks[0..i]: a refusal below the top keeps the high locks and releases low ones never taken", "boxed / ref collection, >= 2 locks, try refused by a member below the highest address"),
+    "C14_change1": ("try-lock-poisonable-error-send", "unsafe impl<G: Sync> Send for TryLockPoisonableError: the WouldBlock(ThreadKey) / Poisoned(guard) error of a refused Poisonable::try_lock can be sent to another thread", "refused / poisoned Poisonable::try_lock whose error value crosses a thread boundary"),
+    "C15_change1": ("rwlock-sync-without-send", "unsafe impl Sync for RwLock requires T: Sync only (was Send + Sync)", "RwLock over a Sync + !Send payload shared with a thread that writes / takes the value"),
+    "C16_change1": ("retry-extend-ptr-read-write", "RetryingLockCollection::extend ptr::reads the child, extends the copy and ptr::writes a rebuilt collection back: a panicking iterator drops every existing member while the collection still owns stale bits", "extend() with an iterator that panics part way, caught"),
+    "C17_change1": ("get-mut-resets-raw-lock", "LockableGetMut::get_mut of Mutex / RwLock resets the raw lock to INIT before returning &mut T: a lock held through a leaked guard becomes free", "get_mut through the trait (collections, Poisonable, containers) on a lock held through a forgotten guard"),
+}
+
 ROOT = "/verif/seeded"
 
 
 def main():
     os.makedirs(ROOT, exist_ok=True)
-    items = [(1, k, v) for k, v in sorted(SLUGS.items())] + [(2, k, v) for k, v in sorted(SLUGS2.items())] + [(3, k, v) for k, v in sorted(SLUGS3.items())] + [(4, k, v) for k, v in sorted(SLUGS4.items())] + [(5, k, v) for k, v in sorted(SLUGS5.items())]
+    items = [(1, k, v) for k, v in sorted(SLUGS.items())] + [(2, k, v) for k, v in sorted(SLUGS2.items())] + [(3, k, v) for k, v in sorted(SLUGS3.items())] + [(4, k, v) for k, v in sorted(SLUGS4.items())] + [(5, k, v) for k, v in sorted(SLUGS5.items())] + [(6, k, v) for k, v in sorted(SLUGS6.items())]
     for rnd, key, (slug, what, needs) in items:
         prop, ch = key.split("_")
-        src = {1: "/tmp/seed-%s/%s", 2: "/tmp/seed2-%s/%s", 3: "/tmp/seed3-%s/%s", 4: "/tmp/seed4-%s/%s", 5: "/tmp/seed5-%s/%s"}[rnd] % (prop, ch)
+        src = {1: "/tmp/seed-%s/%s", 2: "/tmp/seed2-%s/%s", 3: "/tmp/seed3-%s/%s", 4: "/tmp/seed4-%s/%s", 5: "/tmp/seed5-%s/%s", 6: "/tmp/seed6-%s/%s"}[rnd] % (prop, ch)
         if not os.path.isdir(src):
             print("missing", src)
             continue
-        sid = "%s-%s-%s" % (prop, str(int(ch[-1]) + {1: 0, 2: 2, 3: 4, 4: 5, 5: 6}[rnd]), slug)
+        sid = "%s-%s-%s" % (prop, str(int(ch[-1]) + {1: 0, 2: 2, 3: 4, 4: 5, 5: 6, 6: 7}[rnd]), slug)
         d = os.path.join(ROOT, sid)
         os.makedirs(d, exist_ok=True)
         shutil.copy(os.path.join(src, "patch.diff"), os.path.join(d, "patch.diff"))
@@ -163,7 +185,7 @@ def main():
         if os.path.exists(os.path.join(src, "README.md")):
             shutil.copy(os.path.join(src, "README.md"), os.path.join(d, "AUTHOR_README.md"))
         verify = {}
-        vf = {1: "/tmp/verify-results/%s.json", 2: "/tmp/verify2-results/%s.json", 3: "/tmp/verify3-results/%s.json", 4: "/tmp/verify4-results/%s.json", 5: "/tmp/verify5-results/%s.json"}[rnd] % key
+        vf = {1: "/tmp/verify-results/%s.json", 2: "/tmp/verify2-results/%s.json", 3: "/tmp/verify3-results/%s.json", 4: "/tmp/verify4-results/%s.json", 5: "/tmp/verify5-results/%s.json", 6: "/tmp/verify6-results/%s.json"}[rnd] % key
         if os.path.exists(vf):
             try:
                 verify = json.load(open(vf))
@@ -172,7 +194,7 @@ def main():
             except Exception:
                 pass
         detect = {}
-        df = {1: "/tmp/detect/results/%s.json", 2: "/tmp/detect/results2/%s.json", 3: "/tmp/detect/results3/%s.json", 4: "/tmp/detect/results4/%s.json", 5: "/tmp/detect/results5/%s.json"}[rnd] % key
+        df = {1: "/tmp/detect/results/%s.json", 2: "/tmp/detect/results2/%s.json", 3: "/tmp/detect/results3/%s.json", 4: "/tmp/detect/results4/%s.json", 5: "/tmp/detect/results5/%s.json", 6: "/tmp/detect/results6/%s.json"}[rnd] % key
         if os.path.exists(df):
             try:
                 detect = json.load(open(df))
@@ -180,7 +202,7 @@ def main():
                 pass
         # final run of the property's own check with the committed machinery, on /repo itself
         final = {}
-        ff = {1: "/tmp/detect/final/%s.json", 2: "/tmp/detect/final2/%s.json", 3: "/tmp/detect/final3/%s.json", 4: "/tmp/detect/final4/%s.json", 5: "/tmp/detect/final5/%s.json"}[rnd] % key
+        ff = {1: "/tmp/detect/final/%s.json", 2: "/tmp/detect/final2/%s.json", 3: "/tmp/detect/final3/%s.json", 4: "/tmp/detect/final4/%s.json", 5: "/tmp/detect/final5/%s.json", 6: "/tmp/detect/final6/%s.json"}[rnd] % key
         if os.path.exists(ff):
             try:
                 final = json.load(open(ff))
